@@ -606,6 +606,14 @@ class DilatedConnectionProtocol(Protocol):
     def disconnect(self):
         self.transport.loseConnection()
 
+    # called by Inbound, when a subchannel's protocol asks us to slow down
+    # (or to carry on with) the delivery of inbound data
+    def pauseProducing(self):
+        self.transport.pauseProducing()
+
+    def resumeProducing(self):
+        self.transport.resumeProducing()
+
     # select() called by Connector
 
     # called by Manager
